@@ -11,6 +11,7 @@ import (
 	"github.com/q191201771/lal/pkg/base"
 	"github.com/q191201771/lal/pkg/gb28181"
 	"github.com/q191201771/lal/pkg/rtprtcp"
+	"github.com/q191201771/lal/pkg/rtsp"
 )
 
 // c13SrcInt reads `name = <int>` from a lal source file (for unexported package variables / constants).
@@ -35,6 +36,7 @@ func init() {
 		leanNat(&sb, "rtcpPacketTypeSr", "rtprtcp.RtcpPacketTypeSr", rtprtcp.RtcpPacketTypeSr)
 		leanNat(&sb, "rtcpPacketTypeRr", "rtprtcp.RtcpPacketTypeRr", rtprtcp.RtcpPacketTypeRr)
 		leanNat(&sb, "rtpFixedHeaderLen", "rtprtcp.RtpFixedHeaderLength", rtprtcp.RtpFixedHeaderLength)
+		leanNat(&sb, "maxHttpMsgBodyLength", "rtsp.maxHttpMsgBodyLength (pkg/rtsp/http_message.go)", rtsp.VerifMaxHttpMsgBodyLength)
 		for _, x := range [][3]string{
 			{"maxUnpackRtpListSize", "pkg/gb28181/gb28181.go", "maxUnpackRtpListSize"},
 			{"unpackerItemMaxSize", "pkg/rtsp/rtsp.go", "unpackerItemMaxSize"},
